@@ -273,6 +273,7 @@ package flags
 //@   traced
 //@ assumed func reflect.Type.In(t reflect.Type, i int) (r reflect.Type)
 //@   pure
+//@   requires 0 <= i && i < t.NumIn()
 //@ func (option *Option) call(value *string) (err error)
 //@   props C01 C11 C14 C04
 //@   traced
@@ -285,7 +286,18 @@ package flags
 //@   ensures[C01,C11] value != nil && option.value.Type().NumIn() != 0 ==> ncalls(convert) == c0 + 1 && callarg(convert, c0, 0) == *value && (callres(convert, c0, 0) != nil ==> err == callres(convert, c0, 0) && ncalls(reflect.Value.Call) == k0) && (callres(convert, c0, 0) == nil ==> ncalls(reflect.Value.Call) == k0 + 1 && callarg(reflect.Value.Call, k0, 0) == option.value)
 //@   ensures is(err, *Error) ==> as(err, *Error) != nil
 //@   ensures !isTyped(err, ErrUnknownFlag)
-//@ assumed func (p *Parser) marshalError(option *Option, err error) (e *Error)
+// The wrapper that turns a foreign conversion error into ErrMarshal: it names
+// the expected type except for callbacks (whose parameter list may be empty).
+//@ assumed func reflect.Type.String(t reflect.Type) (s string)
+//@   pure
+//@ func (p *Parser) expectedType(option *Option) (s string)
+//@   props C04 C14
+//@   requires option != nil
+//@   ensures[C14] option.value.Type().Kind() == reflect.Func ==> s == ""
+//@   assigns nothing
+//@ func (p *Parser) marshalError(option *Option, err error) (e *Error)
+//@   props C04 C14
+//@   requires option != nil && err != nil
 //@   ensures e != nil && e.Type == ErrMarshal
 
 //@ func unquoteIfPossible(s string) (r string, err error)
@@ -1072,6 +1084,7 @@ package flags
 //@   loop 1 decreases readBound(reader) - ncalls(bufio.Reader.ReadLine)
 //@   ensures[C13] err == nil ==> forall(j, 0, len(r.order), forall(k, 0, j, r.order[k] != r.order[j]))
 //@   at[C14] call append #2: name == strings.TrimSpace(line[1 : len(line)-1]) && len(name) != 0
+//@   at[C14] call append #3: len(line) > 0 && line[0] != '[' && line[0] != ';' && line[0] != '#' && contains(line, "=")
 //@   at[C12] call append #3: value == iniDecode(keyval[1]) && iniDecodeOK(keyval[1]) && name == strings.TrimSpace(keyval[0])
 //@   ensures[C14] err == nil ==> r != nil && !isnil(r.Sections) && r.File == filename
 //@   ensures[C14] is(err, *IniError) ==> as(err, *IniError) != nil && as(err, *IniError).LineNumber == uint((ncalls(readFullLine) - nfails(readFullLine)) - l0) && as(err, *IniError).LineNumber >= 1 && as(err, *IniError).File == filename
